@@ -41,6 +41,10 @@ func main() {
 			"rgswenc/ and rgswalg/: every row of RGSW ciphertexts (fresh, summed, multiplied by X^a−1 for all 2N exponents) is decrypted against the gadget definition; NoiseRGSWCiphertext is compared with that decryption. " +
 			"blindrot/: one scenario per (LWE ring, BR ring, key/path variant, Hamming weight, interval, slot pattern); full-slot patterns walk the whole 2N-point circle three times so that every grid point meets sign, identity and a fixed table; " +
 			"the subsets pattern requests every subset of size ≤ 2 of four slot indices. Each rotation is judged on the constant coefficient (property), on being a rotation of the look-up (mechanism) and on the exponent prescribed by the documented modulus switch. " +
+			"Phase 2: extprod/*-p61 chains with 8–12 primes and up to 3 auxiliary primes at every (levelQ, levelP) (digit counts on both sides of the lazy-accumulation margins); " +
+			"extlevels/: RLWE ciphertext above the RGSW level, output in place / fresh at either level, result read at the RGSW level; exthistory/: one evaluator through a sequence of products of different levels, #P and decompositions, bit-compared with a fresh evaluator; " +
+			"blindrot/ additionally: equal ring degrees, asymmetric intervals with f(a) ≠ −f(b), non-prefix slot triples, LWE samples with two moduli at both levels, keys generated below the top level, every Evaluate of the subsets pattern replayed on a fresh evaluator and bit-compared; " +
+			"brgrow/: evaluation with exactly the Galois keys a reference run requested, then with a key set that gained the remaining keys on the same evaluator. " +
 			"distinct_nontrivial counts (path, plaintext class, noise magnitude) resp. (variant, function, inside/outside, exact-hit) classes.",
 		Assumptions: []string{
 			"RLWE ciphertext, RGSW ciphertext and output are at the same level; RGSW plaintexts are small (ternary or X^a−1); P primes are at least as large as Q primes",
@@ -50,6 +54,7 @@ func main() {
 			"blind rotation: inputs x are encoded as k·Q_LWE/2N_BR for grid index k (|k| ≤ N_BR/2 ↔ [a,b]); at the upper end point b both f(b) and the negacyclic value −f(a) are accepted; " +
 				"the drift window is 1/2 + 3h/2 grid steps (rounding of b, rounding and odd-forcing of the h mask coefficients that meet a non-zero secret coefficient) plus one discretisation step; " +
 				"within that window of a or b the negacyclic continuation of the look-up is accepted (InitTestPolynomial: the interval should take the drift into account)",
+			"RLWE ciphertext above the RGSW level: ExternalProduct works at the RGSW level and does not resize its output; the result is read on the first levelQ+1 moduli. A ciphertext below the RGSW level is not supported by the code (panics): recorded, not judged. Likewise blind-rotation results are read at the level of the keys",
 			"the algorithm's window is w=10: the expected Galois key set is {5^1..5^10, −5}",
 		},
 		Scenarios:      scenarios,
@@ -73,6 +78,18 @@ func main() {
 				"br-rotation=uniquely-identified",
 				"x=inside", "x=outside", "x=a", "x=b", "x=0",
 				"brkeys=singleP", "brkeys=32bit", "brkeys=noP", "brkeys=multipleP",
+				// phase 2 axes
+				"shape=q10x30-p61", "shape=q12x45-p61", "shape=q8x61-p61", "shape=q12x61-p61", "nP=3", "pw2=1",
+				"extlevels=noP/inplace", "extlevels=singleP/inplace", "extlevels=multipleP/inplace",
+				"extlevels=noP/fresh@ctLevel", "extlevels=singleP/fresh@ctLevel", "extlevels=noP/fresh@rgswLevel", "extlevels=singleP/fresh@rgswLevel",
+				"exthistory=q3mix", "exthistory=q28lo", "exthistory=q8x61-p61", "exthistory=q10x30-p61",
+				"br-pair=16,16", "br-pair=32,32", "br-interval=[-1,3]", "br-history=reused-vs-fresh",
+				"br-variant=multipleP-lwe2@1", "br-variant=multipleP-lwe2@0", "br-variant=multipleP-lowkeys", "br-variant=singleP-lowkeys",
+				"br-variant=singleP-flip", "br-variant=32bit-flip", "br-variant=noP-flip", "br-variant=multipleP-flip", "br-variant=singleP-pw2=16",
+				"brgrow=singleP", "brgrow=32bit", "brgrow=noP", "brgrow=multipleP", "brgrow=multipleP-lowkeys", "brgrow=multipleP-lwe2@1",
+			}
+			if tier == "thorough" {
+				e = append(e, "br-interval=[0,2]")
 			}
 			return e
 		},
